@@ -37,6 +37,22 @@ var loopRoots = []root{
 	{"geom", "interpolateCoords", false},
 	{"geom", "newLinearInterpolator", false},
 	{"geom", "densify", false},
+	// geom/type_polygon.go: the orientation tests behind ForceCW / ForceCCW
+	{"geom", "Polygon.IsCW", false},
+	{"geom", "Polygon.IsCCW", false},
+	// type-level measures and envelopes built on the ring / line functions above
+	{"geom", "MultiLineString.Length", false},
+	{"geom", "LineString.Centroid", false},
+	{"geom", "MultiPoint.Centroid", false},
+	{"geom", "MultiPoint.Envelope", false},
+	// geom/alg_simplify.go: the distance Ramer-Douglas-Peucker thresholds
+	{"geom", "perpendicularDistance", false},
+	// Probed and outside the fragment (each would be `untranslatable`): linearInterpolator.interpolate (calls
+	// sort.SearchFloat64s), Polygon/MultiPolygon/LineString/MultiLineString.Envelope and Polygon.Centroid (through
+	// Sequence.Envelope / Sequence.ForceCoordinatesType: a Sequence is translated as the list of its Coordinates),
+	// LineString.IsClosed (a run-time check in the right operand of &&), Sequence.Reverse, snapToGridFloat64
+	// (math.Pow10), Polygon.Area / MultiPolygon.Area (variadic option sets), transformSequence (3-argument make),
+	// ramerDouglasPeucker (Sequence.appendAllPoints).
 }
 
 // further names the third output must not bind
